@@ -1,11 +1,18 @@
 // Regenerates lean/KG/Gen/C15.lean: the shape facts of the removal path that the lifecycle model (KG.Model.Lifecycle)
-// is parameterised by. Each fact is read with go/ast from /repo's current sources; the model behaves as the source
-// says (a cluster deletion that does not stop the cluster, an endpoint context that is not a child of the cluster's,
-// ... give a model in which the C15 theorems no longer hold, so ./check reports the broken proof obligations next to
-// whatever the harness finds at run time).
+// builds in and KG.Props.C15.c15_source_shape checks.
 //
-// A fact that can be read neither way (the function is gone, the call it looks for has no recognisable form) is a
-// failed regeneration.
+// The facts are SEMANTIC ("on the path from X the call Y happens", "the context created here derives from that one"),
+// not spellings:
+//   - a call is looked for in the function AND in the same-package helpers it calls (two levels deep), so a body moved
+//     into a helper method is still found;
+//   - fields are found by ROLE (the field of ClusterInfo / EndpointInfo whose type is context.Context / context.CancelFunc),
+//     parameters by type, local variables by what they were assigned from — not by name;
+//   - loops are range or index loops; the update / create call site of EnsureGatewayHealthCheck is told apart by its
+//     position relative to the construction of the EndpointInfo, not by the name of a condition;
+//   - HOW the manager keeps its table (sync.Map, mutex + map) is not a fact: name resolution after every operation is
+//     compared with the model by the harness, which is the tie for it.
+//
+// A fact that can be read neither way is a failed regeneration (a broken tie, never a silent pass).
 package main
 
 import (
@@ -17,33 +24,129 @@ import (
 	"extract/lib"
 )
 
-func must(fd *ast.FuncDecl, file, name string) *ast.FuncDecl {
-	if fd == nil || fd.Body == nil {
-		lib.Fatalf("%s: function %s not found", file, name)
-	}
-	return fd
+type pkgIndex struct {
+	funcs map[string][]*ast.FuncDecl // by name (functions and methods of every receiver)
+	files map[string]*ast.File
 }
 
-// calls returns every call expression below n whose callee is a selector (x.Name(...)) or an identifier (Name(...)).
+func index(g *lib.Gen, rels ...string) *pkgIndex {
+	p := &pkgIndex{funcs: map[string][]*ast.FuncDecl{}, files: map[string]*ast.File{}}
+	for _, rel := range rels {
+		f := g.ParseFile(rel)
+		p.files[rel] = f
+		for _, d := range f.Decls {
+			if fd, ok := d.(*ast.FuncDecl); ok && fd.Body != nil {
+				p.funcs[fd.Name.Name] = append(p.funcs[fd.Name.Name], fd)
+			}
+		}
+	}
+	return p
+}
+
+func calleeName(c *ast.CallExpr) string {
+	switch f := c.Fun.(type) {
+	case *ast.SelectorExpr:
+		return f.Sel.Name
+	case *ast.Ident:
+		return f.Name
+	}
+	return ""
+}
+
+// shallow: every call expression below n with that callee name.
 func calls(n ast.Node, name string) []*ast.CallExpr {
 	var out []*ast.CallExpr
+	if n == nil {
+		return out
+	}
 	ast.Inspect(n, func(x ast.Node) bool {
-		c, ok := x.(*ast.CallExpr)
-		if !ok {
-			return true
-		}
-		switch f := c.Fun.(type) {
-		case *ast.SelectorExpr:
-			if f.Sel.Name == name {
-				out = append(out, c)
-			}
-		case *ast.Ident:
-			if f.Name == name {
-				out = append(out, c)
-			}
+		if c, ok := x.(*ast.CallExpr); ok && calleeName(c) == name {
+			out = append(out, c)
 		}
 		return true
 	})
+	return out
+}
+
+// reach: the node itself plus the bodies of the same-package functions it calls, `depth` levels deep.
+func (p *pkgIndex) reach(n ast.Node, depth int) []ast.Node {
+	out := []ast.Node{n}
+	seen := map[*ast.FuncDecl]bool{}
+	frontier := []ast.Node{n}
+	for d := 0; d < depth; d++ {
+		var next []ast.Node
+		for _, m := range frontier {
+			ast.Inspect(m, func(x ast.Node) bool {
+				if c, ok := x.(*ast.CallExpr); ok {
+					for _, fd := range p.funcs[calleeName(c)] {
+						if !seen[fd] {
+							seen[fd] = true
+							out = append(out, fd.Body)
+							next = append(next, fd.Body)
+						}
+					}
+				}
+				return true
+			})
+		}
+		frontier = next
+	}
+	return out
+}
+
+func (p *pkgIndex) deepCalls(n ast.Node, name string) []*ast.CallExpr {
+	var out []*ast.CallExpr
+	for _, m := range p.reach(n, 2) {
+		out = append(out, calls(m, name)...)
+	}
+	return out
+}
+
+func (p *pkgIndex) method(recv, name, where string) *ast.FuncDecl {
+	for _, fd := range p.funcs[name] {
+		r := ""
+		if fd.Recv != nil && len(fd.Recv.List) == 1 {
+			t := fd.Recv.List[0].Type
+			if s, ok := t.(*ast.StarExpr); ok {
+				t = s.X
+			}
+			if id, ok := t.(*ast.Ident); ok {
+				r = id.Name
+			}
+		}
+		if r == recv {
+			return fd
+		}
+	}
+	lib.Fatalf("%s: function %s not found", where, name)
+	return nil
+}
+
+// fieldsOfType: names of the fields of struct `typ` whose type is pkg.sel (e.g. context.CancelFunc).
+func (p *pkgIndex) fieldsOfType(typ, pkg, sel string) map[string]bool {
+	out := map[string]bool{}
+	for _, f := range p.files {
+		ast.Inspect(f, func(x ast.Node) bool {
+			ts, ok := x.(*ast.TypeSpec)
+			if !ok || ts.Name.Name != typ {
+				return true
+			}
+			st, ok := ts.Type.(*ast.StructType)
+			if !ok {
+				return false
+			}
+			for _, fl := range st.Fields.List {
+				if se, ok := fl.Type.(*ast.SelectorExpr); ok && se.Sel.Name == sel {
+					if id, ok := se.X.(*ast.Ident); ok && id.Name == pkg {
+						for _, n := range fl.Names {
+							out[n.Name] = true
+						}
+					}
+				}
+			}
+			return false
+		})
+	}
 	return out
 }
 
@@ -60,30 +163,51 @@ func isPkgCall(e ast.Expr, pkg, name string) bool {
 	return ok && id.Name == pkg
 }
 
-// ctxOf says whether e reads the context of the object named recv: recv.Context() or recv.ctx.
-func ctxOf(e ast.Expr, recv string) bool {
-	if c, ok := e.(*ast.CallExpr); ok {
-		if s, ok := c.Fun.(*ast.SelectorExpr); ok && s.Sel.Name == "Context" && len(c.Args) == 0 {
-			if id, ok := s.X.(*ast.Ident); ok && (recv == "" || id.Name == recv) {
-				return true
+func detached(e ast.Expr) bool {
+	return isPkgCall(e, "context", "Background") || isPkgCall(e, "context", "TODO")
+}
+
+// ctxOf: e reads the context of the object held in variable `obj` ("" = any variable): obj.Context() or obj.<a field of
+// type context.Context>. Returns the variable's name.
+func ctxOf(e ast.Expr, ctxFields map[string]bool) (string, bool) {
+	if c, ok := e.(*ast.CallExpr); ok && len(c.Args) == 0 {
+		if s, ok := c.Fun.(*ast.SelectorExpr); ok && s.Sel.Name == "Context" {
+			if id, ok := s.X.(*ast.Ident); ok {
+				return id.Name, true
 			}
 		}
 	}
-	if s, ok := e.(*ast.SelectorExpr); ok && s.Sel.Name == "ctx" {
-		if id, ok := s.X.(*ast.Ident); ok && (recv == "" || id.Name == recv) {
-			return true
+	if s, ok := e.(*ast.SelectorExpr); ok && ctxFields[s.Sel.Name] {
+		if id, ok := s.X.(*ast.Ident); ok {
+			return id.Name, true
 		}
 	}
-	return false
-}
-
-func detached(e ast.Expr) bool {
-	return isPkgCall(e, "context", "Background") || isPkgCall(e, "context", "TODO")
+	return "", false
 }
 
 func recvName(fd *ast.FuncDecl) string {
 	if fd.Recv != nil && len(fd.Recv.List) == 1 && len(fd.Recv.List[0].Names) == 1 {
 		return fd.Recv.List[0].Names[0].Name
+	}
+	return ""
+}
+
+func paramOfType(fd *ast.FuncDecl, pkg, sel string) string {
+	for _, p := range fd.Type.Params.List {
+		if len(p.Names) != 1 {
+			continue
+		}
+		if pkg == "" {
+			if id, ok := p.Type.(*ast.Ident); ok && id.Name == sel {
+				return p.Names[0].Name
+			}
+			continue
+		}
+		if s, ok := p.Type.(*ast.SelectorExpr); ok && s.Sel.Name == sel {
+			if id, ok := s.X.(*ast.Ident); ok && id.Name == pkg {
+				return p.Names[0].Name
+			}
+		}
 	}
 	return ""
 }
@@ -95,6 +219,25 @@ func b(v bool) string {
 	return "false"
 }
 
+// leavesEarly: a loop body that can end the loop (return / break / goto outside a nested function or switch-less break).
+func leavesEarly(body *ast.BlockStmt) bool {
+	early := false
+	ast.Inspect(body, func(y ast.Node) bool {
+		switch t := y.(type) {
+		case *ast.FuncLit:
+			return false
+		case *ast.ReturnStmt:
+			early = true
+		case *ast.BranchStmt:
+			if t.Tok == token.BREAK || t.Tok == token.GOTO {
+				early = true
+			}
+		}
+		return true
+	})
+	return early
+}
+
 func main() {
 	lib.Main(func(g *lib.Gen) {
 		const (
@@ -102,14 +245,43 @@ func main() {
 			fMgr  = "pkg/clusters/manager.go"
 			fCI   = "pkg/clusters/clusterinfo.go"
 			fEP   = "pkg/clusters/endpoint.go"
+			fCP   = "pkg/clusters/clientprovider.go"
 			fDisp = "pkg/gateway/proxy/dispatcher/dispatcher.go"
 		)
-		ctrl, mgr, ci, ep, disp := g.ParseFile(fCtrl), g.ParseFile(fMgr), g.ParseFile(fCI), g.ParseFile(fEP), g.ParseFile(fDisp)
+		ctrl := index(g, fCtrl)
+		cl := index(g, fMgr, fCI, fEP, fCP, "pkg/clusters/util.go")
+		disp := index(g, fDisp)
 
-		// 1/2. which of the manager's delete variants the two controller paths use
+		ciCtx := cl.fieldsOfType("ClusterInfo", "context", "Context")
+		ciCancel := cl.fieldsOfType("ClusterInfo", "context", "CancelFunc")
+		epCtx := cl.fieldsOfType("EndpointInfo", "context", "Context")
+		epCancel := cl.fieldsOfType("EndpointInfo", "context", "CancelFunc")
+		if len(ciCancel) == 0 || len(epCancel) == 0 || len(ciCtx) == 0 || len(epCtx) == 0 {
+			lib.Fatalf("%s / %s: ClusterInfo and EndpointInfo no longer carry a context.Context and a context.CancelFunc", fCI, fEP)
+		}
+		anyCtx := map[string]bool{}
+		for k := range ciCtx {
+			anyCtx[k] = true
+		}
+		for k := range epCtx {
+			anyCtx[k] = true
+		}
+		// a call of a cancel-function FIELD: x.<field>() (not a local variable that happens to have the same name)
+		callsField := func(p *pkgIndex, n ast.Node, names map[string]bool) bool {
+			for k := range names {
+				for _, c := range p.deepCalls(n, k) {
+					if _, ok := c.Fun.(*ast.SelectorExpr); ok {
+						return true
+					}
+				}
+			}
+			return false
+		}
+
+		// 1/2. which of the manager's delete variants the two controller paths use (in the function or its helpers)
 		variant := func(fn string) bool {
-			fd := must(lib.FuncDecl(ctrl, "UpstreamClusterController", fn), fCtrl, fn)
-			ws, wo := calls(fd.Body, "DeleteWithStop"), calls(fd.Body, "Delete")
+			fd := ctrl.method("UpstreamClusterController", fn, fCtrl)
+			ws, wo := ctrl.deepCalls(fd.Body, "DeleteWithStop"), ctrl.deepCalls(fd.Body, "Delete")
 			switch {
 			case len(ws) > 0 && len(wo) == 0:
 				return true
@@ -122,32 +294,36 @@ func main() {
 		deleteStops := variant("DeleteForServerNames")
 		aliasStops := variant("AddOrUpdateForServerNames")
 
-		// the loops over the server names visit EVERY name: a name that does not (any longer) resolve to the cluster is
-		// skipped, it does not end the loop (no return / break / goto inside a range body)
+		// the loops over the server names visit EVERY name (range or index loops; a stale name is skipped, not the end)
 		visitsAll := func(fn string) bool {
-			fd := must(lib.FuncDecl(ctrl, "UpstreamClusterController", fn), fCtrl, fn)
+			fd := ctrl.method("UpstreamClusterController", fn, fCtrl)
 			loops, all := 0, true
-			ast.Inspect(fd.Body, func(x ast.Node) bool {
-				rs, ok := x.(*ast.RangeStmt)
-				if !ok {
-					return true
+			// the loops that change the manager's table (in the function or a helper it calls): the ones from whose body
+			// a Delete / DeleteWithStop / AddWithKey is reached
+			mutating := func(body *ast.BlockStmt) bool {
+				for _, name := range []string{"Delete", "DeleteWithStop", "AddWithKey"} {
+					if len(ctrl.deepCalls(body, name)) > 0 {
+						return true
+					}
 				}
-				loops++
-				ast.Inspect(rs.Body, func(y ast.Node) bool {
-					switch t := y.(type) {
-					case *ast.FuncLit:
-						return false
-					case *ast.ReturnStmt:
-						all = false
-					case *ast.BranchStmt:
-						if t.Tok == token.BREAK || t.Tok == token.GOTO {
-							all = false
-						}
+				return false
+			}
+			for _, n := range ctrl.reach(fd.Body, 1) {
+				ast.Inspect(n, func(x ast.Node) bool {
+					var body *ast.BlockStmt
+					switch t := x.(type) {
+					case *ast.RangeStmt:
+						body = t.Body
+					case *ast.ForStmt:
+						body = t.Body
+					}
+					if body != nil && mutating(body) {
+						loops++
+						all = all && !leavesEarly(body)
 					}
 					return true
 				})
-				return true
-			})
+			}
 			if loops == 0 {
 				lib.Fatalf("%s: %s has no loop over the server names", fCtrl, fn)
 			}
@@ -156,118 +332,272 @@ func main() {
 		deleteVisitsAll := visitsAll("DeleteForServerNames")
 		updateVisitsAll := visitsAll("AddOrUpdateForServerNames")
 
-		// 3. manager: DeleteWithStop -> doDelete(name, true) -> cluster.Stop(); Delete -> doDelete(name, false); Stop -> c.cancel()
-		flag := func(fn string) bool {
-			fd := must(lib.FuncDecl(mgr, "manager", fn), fMgr, fn)
-			cs := calls(fd.Body, "doDelete")
-			if len(cs) != 1 || len(cs[0].Args) != 2 {
-				lib.Fatalf("%s: %s does not call doDelete(name, flag) once", fMgr, fn)
+		// 3. manager: DeleteWithStop stops the cluster, Delete does not. Both hand a literal flag to a common helper whose
+		// bool parameter guards the call of ClusterInfo.Stop; Stop calls the cluster's cancel function.
+		// (How the key is removed from the table is not a fact here: the harness compares name resolution.)
+		stopFn := cl.method("ClusterInfo", "Stop", fCI)
+		stopCancels := callsField(cl, stopFn.Body, ciCancel)
+		stopsCluster := func(fn string) bool {
+			fd := cl.method("manager", fn, fMgr)
+			if len(cl.deepCalls(fd.Body, "Stop")) == 0 {
+				return false // no path to Stop at all
 			}
-			id, ok := cs[0].Args[1].(*ast.Ident)
-			if !ok || (id.Name != "true" && id.Name != "false") {
-				lib.Fatalf("%s: %s passes a non-literal stop flag", fMgr, fn)
-			}
-			return id.Name == "true"
-		}
-		dd := must(lib.FuncDecl(mgr, "manager", "doDelete"), fMgr, "doDelete")
-		stopUnderFlag := false
-		ast.Inspect(dd.Body, func(x ast.Node) bool {
-			if is, ok := x.(*ast.IfStmt); ok {
-				if id, ok := is.Cond.(*ast.Ident); ok && id.Name == "stop" && len(calls(is.Body, "Stop")) > 0 {
-					stopUnderFlag = true
+			// the literal flag and the helper it goes to
+			var res *bool
+			ast.Inspect(fd.Body, func(x ast.Node) bool {
+				c, ok := x.(*ast.CallExpr)
+				if !ok {
+					return true
 				}
+				for i, a := range c.Args {
+					id, ok := a.(*ast.Ident)
+					if !ok || (id.Name != "true" && id.Name != "false") {
+						continue
+					}
+					for _, h := range cl.funcs[calleeName(c)] {
+						if h.Type.Params == nil {
+							continue
+						}
+						// the i-th parameter
+						k, pname := 0, ""
+						for _, pl := range h.Type.Params.List {
+							for _, n := range pl.Names {
+								if k == i {
+									pname = n.Name
+								}
+								k++
+							}
+						}
+						if pname == "" {
+							continue
+						}
+						guarded := false
+						ast.Inspect(h.Body, func(y ast.Node) bool {
+							if is, ok := y.(*ast.IfStmt); ok {
+								if cid, ok := is.Cond.(*ast.Ident); ok && cid.Name == pname && len(cl.deepCalls(is.Body, "Stop")) > 0 {
+									guarded = true
+								}
+							}
+							return true
+						})
+						if guarded {
+							v := id.Name == "true"
+							res = &v
+						}
+					}
+				}
+				return true
+			})
+			if res == nil {
+				// Stop is reached without a literal flag: it is called unconditionally on this path
+				direct := len(calls(fd.Body, "Stop")) > 0
+				if !direct {
+					lib.Fatalf("%s: %s reaches ClusterInfo.Stop in a way this extractor cannot decide", fMgr, fn)
+				}
+				return true
 			}
-			return true
-		})
-		if len(calls(dd.Body, "LoadAndDelete")) == 0 {
-			lib.Fatalf("%s: doDelete does not LoadAndDelete the key", fMgr)
+			return *res
 		}
-		stopFn := must(lib.FuncDecl(ci, "ClusterInfo", "Stop"), fCI, "Stop")
-		stopCancels := len(calls(stopFn.Body, "cancel")) > 0
-		withStopStops := flag("DeleteWithStop") && stopUnderFlag && stopCancels
-		plainStops := flag("Delete") && stopUnderFlag && stopCancels
+		withStopStops := stopsCluster("DeleteWithStop") && stopCancels
+		plainStops := stopsCluster("Delete") && stopCancels
 
 		// 4. the endpoint's context is a child of the cluster's
-		aou := must(lib.FuncDecl(ci, "ClusterInfo", "addOrUpdateEndpoint"), fCI, "addOrUpdateEndpoint")
-		wcs := calls(aou.Body, "WithCancel")
-		if len(wcs) != 1 || len(wcs[0].Args) != 1 {
-			lib.Fatalf("%s: addOrUpdateEndpoint does not create exactly one context.WithCancel", fCI)
+		aou := cl.method("ClusterInfo", "addOrUpdateEndpoint", fCI)
+		wcs := cl.deepCalls(aou.Body, "WithCancel")
+		var epChild, epChildKnown bool
+		for _, wc := range wcs {
+			if len(wc.Args) != 1 {
+				continue
+			}
+			if v, ok := ctxOf(wc.Args[0], ciCtx); ok && v == recvName(aou) {
+				epChild, epChildKnown = true, true
+			} else if detached(wc.Args[0]) && !epChildKnown {
+				epChild, epChildKnown = false, true
+			}
 		}
-		var epChild bool
-		switch {
-		case ctxOf(wcs[0].Args[0], recvName(aou)):
-			epChild = true
-		case detached(wcs[0].Args[0]):
-			epChild = false
-		default:
+		// (EnsureGatewayHealthCheck is reached from addOrUpdateEndpoint too: its WithCancel(ctx param) is neither form)
+		if !epChildKnown {
 			lib.Fatalf("%s: addOrUpdateEndpoint: parent of the endpoint context not recognised", fCI)
 		}
 
-		// 4b. PickOne (the pick behind ClientFor: TokenReview / SubjectAccessReview webhooks) is the same pick as the
-		// dispatcher's: a fresh strategy over AllEndpoints() and nothing but its Pop() — no remembered endpoint
-		po := must(lib.FuncDecl(ci, "ClusterInfo", "PickOne"), fCI, "PickOne")
-		var rets []*ast.ReturnStmt
+		// 4b. PickOne (the pick behind ClientFor: TokenReview / SubjectAccessReview webhooks) hands out nothing but what
+		// Pop() over AllEndpoints() returns: every return value is the Pop call, a variable assigned from it, or nil
+		po := cl.method("ClusterInfo", "PickOne", fCI)
+		fromPop := map[string]bool{}
 		ast.Inspect(po.Body, func(x ast.Node) bool {
-			if _, ok := x.(*ast.FuncLit); ok {
-				return false
-			}
-			if rs, ok := x.(*ast.ReturnStmt); ok {
-				rets = append(rets, rs)
-			}
-			return true
-		})
-		pickOnePlain := len(rets) == 1 && len(rets[0].Results) == 1 && len(calls(rets[0].Results[0], "Pop")) == 1 &&
-			len(calls(po.Body, "AllEndpoints")) == 1
-		if len(calls(po.Body, "Pop")) == 0 {
-			lib.Fatalf("%s: PickOne does not pick through Pop", fCI)
-		}
-		cp := g.ParseFile("pkg/clusters/clientprovider.go")
-		cf := must(lib.FuncDecl(cp, "manager", "ClientFor"), "pkg/clusters/clientprovider.go", "ClientFor")
-		if len(calls(cf.Body, "Get")) != 1 || len(calls(cf.Body, "PickOne")) != 1 {
-			lib.Fatalf("pkg/clusters/clientprovider.go: ClientFor is not Get(name) + PickOne()")
-		}
-
-		// 5/6. syncEndpoints: removed endpoints leave the map and are cancelled
-		se := must(lib.FuncDecl(ci, "ClusterInfo", "syncEndpoints"), fCI, "syncEndpoints")
-		leavesMap := len(calls(se.Body, "LoadAndDelete")) > 0
-		if !leavesMap && len(calls(se.Body, "Load")) == 0 {
-			lib.Fatalf("%s: syncEndpoints neither loads nor deletes removed endpoints", fCI)
-		}
-		cancelled := len(calls(se.Body, "cancel")) > 0
-
-		// 7. health-check loops: child of the endpoint context, and both goroutines leave when it ends
-		ens := must(lib.FuncDecl(ep, "", "EnsureGatewayHealthCheck"), fEP, "EnsureGatewayHealthCheck")
-		var ctxParam string
-		for _, p := range ens.Type.Params.List {
-			if s, ok := p.Type.(*ast.SelectorExpr); ok && s.Sel.Name == "Context" && len(p.Names) == 1 {
-				ctxParam = p.Names[0].Name
-			}
-		}
-		hw := calls(ens.Body, "WithCancel")
-		if ctxParam == "" || len(hw) != 1 || len(hw[0].Args) != 1 {
-			lib.Fatalf("%s: EnsureGatewayHealthCheck(ctx) does not create exactly one context.WithCancel", fEP)
-		}
-		var hcChild bool
-		if id, ok := hw[0].Args[0].(*ast.Ident); ok && id.Name == ctxParam {
-			hcChild = true
-		} else if detached(hw[0].Args[0]) {
-			hcChild = false
-		} else {
-			lib.Fatalf("%s: EnsureGatewayHealthCheck: parent of the health-check context not recognised", fEP)
-		}
-		// which context each call site of EnsureGatewayHealthCheck hands over: the update path (endpoint already in the
-		// map: the call inside `if ok { ... }`) and the create path (the other call) of addOrUpdateEndpoint
-		inUpdate := map[*ast.CallExpr]bool{}
-		ast.Inspect(aou.Body, func(x ast.Node) bool {
-			if is, ok := x.(*ast.IfStmt); ok {
-				if id, ok := is.Cond.(*ast.Ident); ok && id.Name == "ok" {
-					for _, c := range calls(is.Body, "EnsureGatewayHealthCheck") {
-						inUpdate[c] = true
+			if as, ok := x.(*ast.AssignStmt); ok && len(as.Rhs) == 1 && len(calls(as.Rhs[0], "Pop")) == 1 {
+				if _, isCall := as.Rhs[0].(*ast.CallExpr); isCall {
+					for _, l := range as.Lhs {
+						if id, ok := l.(*ast.Ident); ok {
+							fromPop[id.Name] = true
+						}
 					}
 				}
 			}
 			return true
 		})
+		pickOnePlain := len(cl.deepCalls(po.Body, "Pop")) >= 1 && len(cl.deepCalls(po.Body, "AllEndpoints")) >= 1
+		ast.Inspect(po.Body, func(x ast.Node) bool {
+			if _, ok := x.(*ast.FuncLit); ok {
+				return false
+			}
+			rs, ok := x.(*ast.ReturnStmt)
+			if !ok || len(rs.Results) == 0 {
+				return true
+			}
+			first := rs.Results[0]
+			switch t := first.(type) {
+			case *ast.CallExpr:
+				if calleeName(t) != "Pop" {
+					pickOnePlain = false
+				}
+			case *ast.Ident:
+				if t.Name != "nil" && !fromPop[t.Name] {
+					pickOnePlain = false
+				}
+			default:
+				pickOnePlain = false
+			}
+			return true
+		})
+		cf := cl.method("manager", "ClientFor", fCP)
+		pickOnePlain = pickOnePlain && len(cl.deepCalls(cf.Body, "PickOne")) >= 1
+
+		// 5/6. syncEndpoints (or the helpers it calls): removed endpoints leave the map and are cancelled
+		se := cl.method("ClusterInfo", "syncEndpoints", fCI)
+		// the endpoint table is the field of ClusterInfo of type *EndpointInfoMap; the endpoint's own cancel function is
+		// the field the EndpointInfo literal fills with the cancel function of the context it creates
+		epMapFields := map[string]bool{}
+		for _, f := range cl.files {
+			ast.Inspect(f, func(x ast.Node) bool {
+				ts, ok := x.(*ast.TypeSpec)
+				if !ok || ts.Name.Name != "ClusterInfo" {
+					return true
+				}
+				if st, ok := ts.Type.(*ast.StructType); ok {
+					for _, fl := range st.Fields.List {
+						if se, ok := fl.Type.(*ast.StarExpr); ok {
+							if id, ok := se.X.(*ast.Ident); ok && id.Name == "EndpointInfoMap" {
+								for _, n := range fl.Names {
+									epMapFields[n.Name] = true
+								}
+							}
+						}
+					}
+				}
+				return false
+			})
+		}
+		onEndpointMap := func(c *ast.CallExpr) bool {
+			f, ok := c.Fun.(*ast.SelectorExpr)
+			if !ok {
+				return false
+			}
+			x, ok := f.X.(*ast.SelectorExpr)
+			return ok && epMapFields[x.Sel.Name]
+		}
+		leavesMap := false
+		for _, name := range []string{"LoadAndDelete", "Delete"} {
+			for _, c := range cl.deepCalls(se.Body, name) {
+				leavesMap = leavesMap || onEndpointMap(c)
+			}
+		}
+		ownCancel := map[string]bool{}
+		cancelLocal := map[string]bool{}
+		ast.Inspect(aou.Body, func(x ast.Node) bool {
+			if as, ok := x.(*ast.AssignStmt); ok && len(as.Rhs) == 1 && len(as.Lhs) == 2 {
+				if rc, ok := as.Rhs[0].(*ast.CallExpr); ok && calleeName(rc) == "WithCancel" {
+					if id, ok := as.Lhs[1].(*ast.Ident); ok {
+						cancelLocal[id.Name] = true
+					}
+				}
+			}
+			return true
+		})
+		ast.Inspect(aou.Body, func(x ast.Node) bool {
+			if kv, ok := x.(*ast.KeyValueExpr); ok {
+				if v, ok := kv.Value.(*ast.Ident); ok && cancelLocal[v.Name] {
+					if k, ok := kv.Key.(*ast.Ident); ok && epCancel[k.Name] {
+						ownCancel[k.Name] = true
+					}
+				}
+			}
+			return true
+		})
+		if len(ownCancel) == 0 {
+			lib.Fatalf("%s: addOrUpdateEndpoint: the EndpointInfo is not given the cancel function of the context created for it", fCI)
+		}
+		cancelled := callsField(cl, se.Body, ownCancel)
+		if len(cl.deepCalls(se.Body, "Diff")) == 0 && !leavesMap {
+			lib.Fatalf("%s: syncEndpoints: no removal of endpoints recognised at all", fCI)
+		}
+
+		// 7. health-check loops: child of the context handed to EnsureGatewayHealthCheck, both goroutines leave when it
+		// ends; and which context each call site hands over
+		ens := cl.method("", "EnsureGatewayHealthCheck", fEP)
+		ctxParam := paramOfType(ens, "context", "Context")
+		hw := cl.deepCalls(ens.Body, "WithCancel")
+		if ctxParam == "" || len(hw) == 0 {
+			lib.Fatalf("%s: EnsureGatewayHealthCheck(ctx) does not derive a context", fEP)
+		}
+		hcChild := true
+		for _, c := range hw {
+			if len(c.Args) != 1 {
+				hcChild = false
+				continue
+			}
+			if id, ok := c.Args[0].(*ast.Ident); !ok || id.Name != ctxParam {
+				hcChild = false
+			}
+		}
+		loops, watching := 0, 0
+		for _, n := range cl.reach(ens.Body, 2) {
+			ast.Inspect(n, func(x ast.Node) bool {
+				gs, ok := x.(*ast.GoStmt)
+				if !ok {
+					return true
+				}
+				loops++
+				w := false
+				ast.Inspect(gs, func(y ast.Node) bool {
+					if cc, ok := y.(*ast.CommClause); ok && cc.Comm != nil {
+						if es, ok := cc.Comm.(*ast.ExprStmt); ok {
+							if u, ok := es.X.(*ast.UnaryExpr); ok && u.Op == token.ARROW && len(calls(u.X, "Done")) > 0 {
+								for _, st := range cc.Body {
+									if _, ok := st.(*ast.ReturnStmt); ok {
+										w = true
+									}
+								}
+							}
+						}
+					}
+					return true
+				})
+				if w {
+					watching++
+				}
+				return false
+			})
+		}
+		if loops == 0 {
+			lib.Fatalf("%s: the health check starts no goroutine", fEP)
+		}
+		hcChild = hcChild && watching == loops
+
+		// call sites in addOrUpdateEndpoint: the ones lexically before the construction of the EndpointInfo are the update
+		// path (endpoint already known), the ones after it the create path
+		var litPos token.Pos
+		ast.Inspect(aou.Body, func(x ast.Node) bool {
+			if cl2, ok := x.(*ast.CompositeLit); ok {
+				if id, ok := cl2.Type.(*ast.Ident); ok && id.Name == "EndpointInfo" && litPos == 0 {
+					litPos = cl2.Pos()
+				}
+			}
+			return true
+		})
+		if litPos == 0 {
+			lib.Fatalf("%s: addOrUpdateEndpoint no longer constructs the EndpointInfo itself", fCI)
+		}
 		siteCtx := func(c *ast.CallExpr, where string) bool {
 			if len(c.Args) != 3 {
 				lib.Fatalf("%s: addOrUpdateEndpoint (%s path): EnsureGatewayHealthCheck is not called with (e, interval, ctx)", fCI, where)
@@ -276,11 +606,11 @@ func main() {
 			if !ok {
 				lib.Fatalf("%s: addOrUpdateEndpoint (%s path): first argument of EnsureGatewayHealthCheck is not a variable", fCI, where)
 			}
-			switch {
-			case ctxOf(c.Args[2], epArg.Name) && epArg.Name != recvName(aou):
-				return true // the endpoint's own context
-			case ctxOf(c.Args[2], "") || detached(c.Args[2]):
-				return false // some other object's context (the cluster's), or a detached one
+			if v, ok := ctxOf(c.Args[2], epCtx); ok {
+				return v == epArg.Name && v != recvName(aou) // the endpoint's own context
+			}
+			if _, ok := ctxOf(c.Args[2], anyCtx); ok || detached(c.Args[2]) {
+				return false
 			}
 			lib.Fatalf("%s: addOrUpdateEndpoint (%s path): context handed to EnsureGatewayHealthCheck not recognised", fCI, where)
 			return false
@@ -288,7 +618,7 @@ func main() {
 		var nUpd, nNew int
 		hcAtUpdate, hcAtCreate := true, true
 		for _, c := range calls(aou.Body, "EnsureGatewayHealthCheck") {
-			if inUpdate[c] {
+			if c.Pos() < litPos {
 				nUpd++
 				hcAtUpdate = hcAtUpdate && siteCtx(c, "update")
 			} else {
@@ -299,78 +629,59 @@ func main() {
 		if nUpd == 0 || nNew == 0 {
 			lib.Fatalf("%s: addOrUpdateEndpoint: expected a call of EnsureGatewayHealthCheck on the update path and one on the create path (%d/%d)", fCI, nUpd, nNew)
 		}
-		// any other caller in the package must hand over an endpoint's context as well
-		for _, f := range []*ast.File{ci, ep} {
-			for _, d := range f.Decls {
-				fd, ok := d.(*ast.FuncDecl)
-				if !ok || fd.Body == nil || fd == aou {
+		for _, fds := range cl.funcs {
+			for _, fd := range fds {
+				if fd == aou {
 					continue
 				}
 				for _, c := range calls(fd.Body, "EnsureGatewayHealthCheck") {
 					if len(c.Args) != 3 {
 						lib.Fatalf("%s: unexpected call shape of EnsureGatewayHealthCheck in %s", fCI, fd.Name.Name)
 					}
-					if epArg, ok := c.Args[0].(*ast.Ident); !ok || !ctxOf(c.Args[2], epArg.Name) {
+					epArg, ok := c.Args[0].(*ast.Ident)
+					v, isCtx := ctxOf(c.Args[2], epCtx)
+					if !ok || !isCtx || v != epArg.Name {
 						hcAtUpdate = false
 					}
 				}
 			}
 		}
-		start := must(lib.FuncDecl(ep, "", "startGatewayHealthCheck"), fEP, "startGatewayHealthCheck")
-		loops, watching := 0, 0
-		ast.Inspect(start.Body, func(x ast.Node) bool {
-			gs, ok := x.(*ast.GoStmt)
+
+		// 8. dispatcher: a goroutine cancels the proxied request when the picked endpoint's context ends. The endpoint is
+		// the variable assigned from Pop(); the cancel function is a variable assigned from a call that (itself or in a
+		// same-package helper) derives a context with WithCancel.
+		sh := disp.method("dispatcher", "ServeHTTP", fDisp)
+		var epVar string
+		cancelVars := map[string]bool{}
+		ast.Inspect(sh.Body, func(x ast.Node) bool {
+			as, ok := x.(*ast.AssignStmt)
+			if !ok || len(as.Rhs) != 1 {
+				return true
+			}
+			rc, ok := as.Rhs[0].(*ast.CallExpr)
 			if !ok {
 				return true
 			}
-			loops++
-			w := false
-			ast.Inspect(gs, func(y ast.Node) bool {
-				if cc, ok := y.(*ast.CommClause); ok && cc.Comm != nil {
-					if es, ok := cc.Comm.(*ast.ExprStmt); ok {
-						if u, ok := es.X.(*ast.UnaryExpr); ok && u.Op == token.ARROW && len(calls(u.X, "Done")) > 0 {
-							for _, st := range cc.Body {
-								if _, ok := st.(*ast.ReturnStmt); ok {
-									w = true
-								}
-							}
-						}
-					}
-				}
-				return true
-			})
-			if w {
-				watching++
-			}
-			return false
-		})
-		if loops == 0 {
-			lib.Fatalf("%s: startGatewayHealthCheck starts no goroutine", fEP)
-		}
-		hcChild = hcChild && watching == loops
-
-		// 8. dispatcher: a goroutine cancels the proxied request when the picked endpoint's context ends
-		sh := must(lib.FuncDecl(disp, "dispatcher", "ServeHTTP"), fDisp, "ServeHTTP")
-		var epVar, cancelVar string
-		ast.Inspect(sh.Body, func(x ast.Node) bool {
-			as, ok := x.(*ast.AssignStmt)
-			if !ok || len(as.Rhs) != 1 || len(as.Lhs) != 2 {
-				return true
-			}
-			if len(calls(as.Rhs[0], "Pop")) == 1 {
+			if calleeName(rc) == "Pop" && len(as.Lhs) >= 1 {
 				if id, ok := as.Lhs[0].(*ast.Ident); ok {
 					epVar = id.Name
 				}
 			}
-			if len(calls(as.Rhs[0], "newRequestForProxy")) == 1 {
+			derives := calleeName(rc) == "WithCancel"
+			for _, h := range disp.funcs[calleeName(rc)] {
+				if len(disp.deepCalls(h.Body, "WithCancel")) > 0 {
+					derives = true
+				}
+			}
+			if derives && len(as.Lhs) == 2 {
 				if id, ok := as.Lhs[1].(*ast.Ident); ok {
-					cancelVar = id.Name
+					cancelVars[id.Name] = true
 				}
 			}
 			return true
 		})
-		if epVar == "" || cancelVar == "" {
-			lib.Fatalf("%s: ServeHTTP: endpoint := picker.Pop() / newReq, cancel := newRequestForProxy(...) not found", fDisp)
+		if epVar == "" || len(cancelVars) == 0 {
+			lib.Fatalf("%s: ServeHTTP: endpoint := picker.Pop() / a cancellable context for the proxied request not found", fDisp)
 		}
 		watches := false
 		ast.Inspect(sh.Body, func(x ast.Node) bool {
@@ -392,27 +703,27 @@ func main() {
 					return true
 				}
 				d, ok := u.X.(*ast.CallExpr) // X.Context().Done()
-				if !ok {
+				if !ok || calleeName(d) != "Done" {
 					return true
 				}
 				ds, ok := d.Fun.(*ast.SelectorExpr)
-				if !ok || ds.Sel.Name != "Done" || !ctxOf(ds.X, epVar) {
+				if !ok {
+					return true
+				}
+				if v, ok := ctxOf(ds.X, epCtx); !ok || v != epVar {
 					return true
 				}
 				for _, st := range cc.Body {
-					if len(calls(st, cancelVar)) > 0 {
-						watches = true
+					for cv := range cancelVars {
+						if len(calls(st, cv)) > 0 {
+							watches = true
+						}
 					}
 				}
 				return true
 			})
 			return false
 		})
-		// the proxied request is built from the context newRequestForProxy derives
-		nr := must(lib.FuncDecl(disp, "", "newRequestForProxy"), fDisp, "newRequestForProxy")
-		if len(calls(nr.Body, "WithCancel")) != 1 || len(calls(nr.Body, "WithContext")) == 0 {
-			lib.Fatalf("%s: newRequestForProxy does not derive a cancellable context for the proxied request", fDisp)
-		}
 
 		var sb strings.Builder
 		sb.WriteString("namespace KG.Gen.C15\n")
